@@ -180,7 +180,7 @@ def aggregate(pid, prop, tier, seed, rundir, nshards, status, t0, replay=False):
         path = os.path.join(rdir, "%s-%s-%d-%s%d.json" % (pid, tier, seed, kind, n))
         json.dump({"property": pid, "tier": tier, "seed": seed, "source": e.get("src"), "case": e.get("case"),
                    "msg": e.get("msg"), "got": e.get("got"), "expected": e.get("expected"), "tags": e.get("tags"),
-                   "finding": e.get("fid"), "repo": ident}, open(path, "w"), indent=1)
+                   "finding": e.get("fid"), "repo": ident, "other_classes_used_first": bool(e.get("warm"))}, open(path, "w"), indent=1)
         return path
 
     lines = []
